@@ -333,6 +333,7 @@ TEMPLATES = {
     "star_in_cte": ("INSERT INTO s.w WITH c AS (SELECT * FROM s.t1) SELECT * FROM c", b_star_derived, b_star_cte_classify),
     "unqualified_in_join": ("INSERT INTO s.w SELECT zqkx FROM s.t1 AS a JOIN s.t2 AS b ON a.id = b.id", b_unqualified, None),
     "unqualified_free_tables": ("INSERT INTO s.w SELECT zqkx FROM zqs1.zqt1 AS a JOIN zqs2.zqt2 AS b ON a.id = b.id", b_unqualified_free_tables, None),
+    "unqualified_free_tables_noalias": ("INSERT INTO s.w SELECT zqkx FROM zqs1.zqt1 JOIN zqs2.zqt2 ON zqs1.zqt1.id = zqs2.zqt2.id", b_unqualified_free_tables, None),
     "unqualified_comma_join": ("INSERT INTO s.w SELECT zqkx FROM s.t1, s.t2", b_unqualified, None),
     "star_into_known_target": ("INSERT INTO s.w SELECT * FROM s.t1", b_star_into_known_target, b_star_into_known_target_classify),
     "insert_positions": ("INSERT INTO s.w SELECT ca, cb FROM s.t1", b_insert_positions, None),
